@@ -14,7 +14,7 @@
  "cbmc": ["--unwindset", "heapify.0:5,heapifyup.0:5"],
  "unwind": 9, "thorough_unwind": 17,
  "bounded": true, "bound": "heaps with <= 7 elements (quick) / <= 15 (thorough); all loops fully unwound",
- "timeout": 600,
+ "timeout": 600, "thorough_timeout": 3600,
  "assumptions": ["HP_MODEL=1: abstract user callbacks of harness/C13/hp_model.h; HP_MODEL=2: real struct timerrec, compar, setreccookie of timerqueue.c",
                  "slot k of the initial heap holds record object R[k]: symmetry reduction, sound for distinct elements because ptrheap.c never inspects element pointers (arbitrary layouts incl. duplicate pointers: groups *_any at 4 elements)",
                  "elasticarray.c is inlined (real code) with ghost bounds assertions (contracts/c13_elasticarray_bounds.spec); the pointer-list buffer is a heap object of constant capacity >= alloc, accesses are checked against the logical size, not the capacity",
@@ -26,7 +26,7 @@
 void
 h_heapify(void)
 {
-	IN(int, use_rc);
+	HP_USE_RC_DECL(use_rc);
 	HP_MK_LIST(L, n, use_rc);
 	HP_MK_COOKIE(ck);
 	IN(size_t, i);
@@ -41,6 +41,6 @@ h_heapify(void)
 
 	/* sift down from the root to the bottom level; sift inside a sub-forest (ptrheap_create's use) */
 	VCOVER(use_rc && lo == 0 && i == 0 && n == HP_MAXN && L_buf[HP_MAXN - 1] == e_i);
-	VCOVER(!use_rc && lo == i && i == 1 && n >= 4 && L_buf[1] != e_i);
+	VCOVER1(!use_rc && lo == i && i == 1 && n >= 4 && L_buf[1] != e_i);
 	VCOVER(use_rc && i == 0 && L_buf[0] == e_i && n > 2);
 }
